@@ -77,8 +77,16 @@ pub trait Engine: Sync + Send {
     /// harness binary).
     fn configurations(&self) -> Vec<Config> {
         vec![
-            Config { name: "std:off", exe: None, share: (1, 1) },
-            Config { name: "std:on", exe: Some(std_exe()), share: (1, 4) },
+            Config {
+                name: "std:off",
+                exe: None,
+                share: (1, 1),
+            },
+            Config {
+                name: "std:on",
+                exe: Some(std_exe()),
+                share: (1, 4),
+            },
         ]
     }
     fn id(&self) -> &'static str;
@@ -131,5 +139,8 @@ pub trait Engine: Sync + Send {
 /// sweeps that run from a private copy of the binaries).
 pub fn std_exe() -> &'static str {
     static P: std::sync::OnceLock<String> = std::sync::OnceLock::new();
-    P.get_or_init(|| std::env::var("COSIM_STD_EXE").unwrap_or_else(|_| "/verif/target/std/release/cosim".to_string()))
+    P.get_or_init(|| {
+        std::env::var("COSIM_STD_EXE")
+            .unwrap_or_else(|_| "/verif/target/std/release/cosim".to_string())
+    })
 }
